@@ -113,6 +113,8 @@ def _frame_plan(draw, max_rows):
             vals = [repl[kind] if build.plan_isna(kind, v) else v for v in vals]
         cols.append({"name": nm, "kind": kind, "vals": vals})
     plan = {"obj": "frame", "fmt": fmt, "suffix": suffix, "opts": opts, "frame": {"n": n, "cols": cols}}
+    if draw(st.integers(0, 5)) == 0:
+        plan["subdir"] = draw(st.sampled_from(["k=1", "year=2020", "a=x/b=y", "v1.2", "my data", "a.csv.gz"]))
     if draw(st.integers(0, 3)) == 0:
         plan["path_forms"] = [draw(st.sampled_from(["str", "path"])), draw(st.sampled_from(["str", "path"]))]
     if cols and draw(st.integers(0, 7)) == 0:
@@ -308,6 +310,11 @@ def check(plan, ctx):
         except Exception:
             pass
     path = ctx.path("data" + EXT[fmt] + suffix)
+    if plan.get("subdir"):
+        # the file sits in a directory whose name looks like something else (key=value, a name with a dot or blanks)
+        path = os.path.join(os.path.dirname(path), plan["subdir"], os.path.basename(path))
+        os.makedirs(os.path.dirname(path), exist_ok=True)
+        ctx.cls("file_in_an_oddly_named_directory")
     # a path may be spelt as a str or as a pathlib.Path, independently for the write and for the read
     wform, rform = plan.get("path_forms", ["str", "str"])
     spell = lambda p, form: pathlib.Path(p) if form == "path" else p
